@@ -10,7 +10,7 @@ from gen_script import Gen
 
 PROP = "C01"
 NEEDS = ["model/Values.v", "model/Eval.v", "model/Loader.v", "model/Serialize.v", "model/Unparse.v", "model/Skeleton.v", "proofs/SerializeP.v",
-         "proofs/UnparseP.v", "extract/Extract.v"]
+         "proofs/UnparseP.v", "proofs/RoundtripP.v", "extract/Extract.v"]
 
 
 def gen_text(rng, i):
